@@ -1,5 +1,5 @@
 CONSTANTS Kinds = {"jobs"} Fields = {"f1", "f2"} Vals = {"u", "z", "a", "b", "x"} MaxUpdates = 3 MaxReads = 3
 SPECIFICATION Spec
 INVARIANTS C19_NoPartial C19_NeverBad
-PROPERTIES C19_Layering C19_LKG
+PROPERTIES C19_Layering C19_LKG C19_AllOrNothing
 CHECK_DEADLOCK FALSE
